@@ -19,7 +19,12 @@ in time, 1e-9 normalised around polygon edges).  Further monitors: shear of
 wavelength band of all vertices, ``subbounds`` / ``bounds`` against min/max of the
 observed vertices and *no exception* from them, equality of frames reached by
 different ``propagate_to`` chains, independence of the order in which choppers
-are listed.
+are listed; the frame ``chop`` returns carries the chopper's distance (bitwise
+without unit conversion) and its vertices lie on the boundary of the starting
+frame sheared to that distance (1e-12; decides choppers that are nearly at the
+frame position, where a time shift is below the 1e-9 band of the neutron test).
+Nothing is remembered per Chopper object: the chopper model is rebuilt from the
+fields at every observed call (the dataclasses are mutable).
 """
 
 from __future__ import annotations
@@ -35,31 +40,48 @@ ID = 'C11'
 LEVEL = 'exploration'
 RULE = (
     'case = one chopper cascade: pulse 0.1..5 ms x wavelength band of width 0.5..20 angstrom '
-    '(random units), a random program of 0..5 Frame.chop calls (chopper at 1..150 m, 1..4 windows of the '
+    '(random units), a random program of 0..5 Frame.chop calls (1..4 windows of the '
     'classes cuts-low / cuts-high / cuts-both / contains / misses / touches-a-vertex-exactly, built from the '
     'vertex times observed in the trace) interleaved with Frame.propagate_to calls (forward, to the next '
-    'chopper distance exactly, occasionally backward), then the same choppers through '
-    'FrameSequence.chop in listed and permuted order, FrameSequence.propagate_to and sequence[distance]; '
-    'every returned frame is judged with ~2000 simulated neutrons; distinct = distinct (number of choppers, '
-    'window classes, program shape, units, equal-distance / backward flags) signatures; a cascade without '
-    'choppers and without propagation is trivial'
+    'chopper distance exactly or to just in front of it, occasionally backward). Chopper distances: 1..150 m '
+    'apart by >= 0.01 m, OR bitwise equal to the current frame distance (0 m for the source frame), bitwise '
+    'equal to an earlier chopper, next to the frame / an earlier chopper (double-disk choppers: relative '
+    'separation log-uniform 1e-12..1e-4, or one ulp; 1e-12..1e-3 m next to the source), or just in front of '
+    'the frame (documented ValueError refusal). Then the same choppers through '
+    'FrameSequence.chop in listed and permuted order, FrameSequence.propagate_to (+ chop from there) and '
+    'sequence[distance] (random, between and just behind nearly coinciding choppers, exact frame distances). '
+    'Every shard starts with forced cascades: 8 structural ones, 3 with nearly coinciding distances (cold '
+    'neutrons, far choppers, cutting windows; the relative separations form a ladder 1e-12..1e-4 over the '
+    'shards), 1 that reassigns fields of live Chopper / Frame / FrameSequence objects between calls. '
+    'Every returned frame is judged with ~2000-4000 simulated neutrons; distinct = distinct (number of '
+    'choppers, window classes, program shape, units, equal / near / ulp / source / behind / backward flags) '
+    'signatures; a cascade without choppers and without propagation is trivial'
 )
 ASSUMPTIONS = [
     'numpy long double (x87 80 bit) evaluates t_emit + d*lambda*m_n/h with error << 1e-15 relative',
     'h and m_n are the values scipp.constants exposes',
-    'neutrons closer than 1e-9 (relative) to a window edge or to a polygon edge are undecided',
+    'neutrons closer than 1e-9 (relative) to a window edge or to a polygon edge are undecided; a polygon '
+    'shifted in time by less than ~3e-9 relative (a distance error below ~3e-9 d) is therefore invisible to '
+    'the transmission monitor and only seen by the direct check of the distance the returned frame carries',
     'regularity of subframes (subbounds must not raise) is only claimed for forward propagation '
-    '(non-decreasing distances); chopper distances are equal or differ by >= 0.01 m',
+    '(non-decreasing distances)',
     'sets of measure zero are not judged: a window edge that only touches a polygon may or may not leave a '
     'zero-area subframe; chopper window times are given in seconds and all chopper distances of one list in '
-    'one unit (other units make the code raise UnitError; units are not part of the property)',
+    'one unit (other units make the code raise UnitError; units are not part of the property); one-ulp '
+    'separations are only generated when frame and chopper distances are float64 metres (no conversion)',
+    'mutable objects: fields are reassigned (chopper.distance = ..., chopper.time_open = ..., '
+    'sequence.frames = ..., frame.distance / frame.subframes = equivalent values) and window arrays are '
+    'written in place; a distance Variable that a Frame shares with the Chopper or with the propagate_to '
+    'argument (copy=False) is never written in place (aliasing of scipp Variables is not part of the '
+    'property)',
 ]
 TECHNIQUE = ('runtime monitors (sys.monitoring) with per-frame ghost state (pulse + observed chopper history); '
              'independent neutron transmission simulator + long-double point-in-polygon; shear / clip / bounds '
              'reference checks at the call boundaries')
 LEVEL_TEXT = ('exploration: every frame returned by chop / propagate_to / FrameSequence in hostile generated '
-              'cascades is compared with an independent transmission simulation of ~2000 neutrons (grid, pulse '
-              'edges, pre-images of all window edges at +-1e-6 and +-1e-4); bounds and subbounds of every '
+              'cascades is compared with an independent transmission simulation of ~2000-4000 neutrons (grid, pulse '
+              'edges, pre-images of all window edges at +-3e-9, +-1e-6 and +-1e-4); the frame chop returns must '
+              'carry the distance the chopper has at the time of the call; bounds and subbounds of every '
               'frame are compared with the observed vertices and must not raise. Sampling of a continuous '
               'input space: held on the decided neutrons / frames reported, not a proof.')
 LEVEL_NOTE = ('trusted: numpy long double, the independent SI table, scipp containers, scipp.constants h and '
@@ -71,11 +93,21 @@ LD = ts.LD
 EPS = ts.EPS64
 BAND = 1e-9
 TOL_SAME = 1e-12
+# neutrons at the pre-images of every window edge, offset by these relative amounts in time at the chopper.
+# The smallest one sits just outside the undecided band: a polygon that is shifted in time by more than
+# 3e-9 (relative) -- e.g. by a distance error of 3e-9 d -- misclassifies a decided neutron.
+EDGE_OFFSETS = (3e-9, 1e-6, 1e-4)
 WINDOW_CLASSES = ['cuts_low', 'cuts_high', 'cuts_both', 'contains', 'misses', 'touches_vertex']
 FORCED = ['window:' + c for c in WINDOW_CLASSES] + [
     'zero_choppers', 'five_choppers', 'equal_distance_choppers', 'propagate_to_chopper_distance',
     'backward_propagation', 'chop_from_frame_at_chopper_distance', 'all_neutrons_blocked',
     'distance_range_propagation', 'adjacent_windows',
+    'near_distance_choppers', 'one_ulp_apart', 'chopper_at_source_distance', 'chopper_slightly_behind_frame',
+    'propagate_near_then_chop', 'sequence_propagate_then_chop',
+    'mutable:same_chopper_at_two_frames', 'mutable:reassigned_chopper_distance',
+    'mutable:reassigned_chopper_windows', 'mutable:chopper_windows_changed_in_place',
+    'mutable:reassigned_frame_fields', 'mutable:reassigned_sequence_frames',
+    'mutable:chopper_reused_in_second_cascade',
 ]
 
 
@@ -160,9 +192,10 @@ class Monitors:
     def reset(self, rng):
         self.rng = rng
         self.ghost: dict[int, Ghost] = {}
-        self.models: dict[int, tuple] = {}  # id(Chopper) -> (Chopper, ChopperModel)
+        self.models: dict[tuple, ts.ChopperModel] = {}  # values -> ChopperModel
+        self.keep: list = []
         self.base_neutrons: dict[int, ts.Neutrons] = {}
-        self.edge_neutrons: dict[int, ts.Neutrons] = {}
+        self.edge_neutrons: dict[tuple, ts.Neutrons] = {}
         self.same_target: dict[tuple, object] = {}
         self.program: list = []
         self.tags: set = set()
@@ -173,11 +206,12 @@ class Monitors:
         return self.ghost.get(id(frame))
 
     def model(self, ch):
-        hit = self.models.get(id(ch))
-        if hit is None:
-            hit = (ch, _chopper_model(ch))
-            self.models[id(ch)] = hit
-        return hit[1]
+        """The chopper as it is NOW (Chopper is a mutable dataclass: nothing is remembered per object);
+        models with bitwise equal values are shared so that their edge neutrons are generated once."""
+        m = _chopper_model(ch)
+        self.keep.append(ch)  # strong reference: id() stays unique within a cascade
+        key = (_hex(m.distance), tuple(_hex(x) for x in m.t_open), tuple(_hex(x) for x in m.t_close))
+        return self.models.setdefault(key, m)
 
     def neutrons(self, pulse, hist):
         base = self.base_neutrons.get(id(pulse))
@@ -186,10 +220,10 @@ class Monitors:
             self.base_neutrons[id(pulse)] = base
         out = base
         for c in hist:
-            e = self.edge_neutrons.get(id(c))
+            e = self.edge_neutrons.get((id(pulse), id(c)))
             if e is None:
-                e = ts.edge_neutrons(pulse, c, self.rng)
-                self.edge_neutrons[id(c)] = e
+                e = ts.edge_neutrons(pulse, c, self.rng, offsets=EDGE_OFFSETS)
+                self.edge_neutrons[(id(pulse), id(c))] = e
             out = out.extended(e)
         return out
 
@@ -423,8 +457,15 @@ class Monitors:
             # the distance the frame itself reports (float64; the chopper's distance converted by the
             # code) is the observable; it must be the chopper distance up to the unit conversion
             d_obs = _scalar(res.distance, 'm')
-            if abs(d_obs - m.distance) > 4 * EPS * m.distance:
-                ctx.violation('frame_distance', 'chop result is not at the chopper distance', case)
+            # bitwise when no unit conversion is involved, else up to the rounding of the conversion
+            same_unit = res.distance.unit == ch.distance.unit
+            ctx.event('chop_frame_distance')
+            if abs(d_obs - m.distance) > (0 if same_unit else 4 * EPS * m.distance):
+                case['reported_frame_distance_m'] = repr(float(d_obs))
+                ctx.violation('frame_distance', 'chop result is not at the chopper distance '
+                              f'(frame {float(d_obs)!r} m, chopper {float(m.distance)!r} m, frame before the call '
+                              f'{[float(x) for x in np.atleast_1d(g.dist)]} m)', case)
+            self.judge_cut_of_propagated(me, g, m, res, case)
             hist = (*g.hist, m)
             mx = max(g.maxabs_t, _maxabs(_polys(res)))
             forward = d_obs >= g.dist
@@ -435,6 +476,33 @@ class Monitors:
             self.judge_frame(res, g.pulse, hist, d_obs, 'chop')
         except Exception:  # noqa: BLE001
             ctx.oracle_error('C11 on_chop')
+
+    def judge_cut_of_propagated(self, me, g, m, res, case):
+        """Clipping a convex polygon at vertical lines keeps vertices and adds points on edges: every
+        vertex of the chopped frame lies on the boundary of a polygon of the frame the call started from,
+        sheared (long double) to the chopper's distance.  Sharper than the neutron test for choppers that
+        are nearly at the frame position (a skipped propagation moves vertices by delta_d lambda m_n/h)."""
+        ctx = self.ctx
+        if np.ndim(g.dist) != 0:
+            return
+        old = [(t, w) for t, w in _polys(me) if t.ndim == 1 and t.size]
+        new = [(t, w) for t, w in _polys(res) if t.ndim == 1 and t.size]
+        if not old or not new:
+            return
+        delta = m.distance - g.dist
+        sheared = [(t + delta * ts.alpha() * w, w) for t, w in old]
+        tscale = max(_maxabs(sheared), _maxabs(new), LD(1e-300))
+        lscale = max(np.max(np.abs(w)) for _, w in sheared)
+        worst = LD(0)
+        for rt, rw in new:
+            dd = np.min(np.stack([ts.boundary_distance(rt, rw, p, tscale, lscale) for p in sheared]), axis=0)
+            worst = max(worst, np.max(dd))
+        ctx.event('chop_vertices_on_propagated_frame')
+        ctx.dev('chop_vertex_off_propagated_frame_boundary', float(worst))
+        if worst > TOL_SAME:
+            ctx.violation('chop_vertex_off_propagated_frame',
+                          f'a vertex of the chopped frame is {float(worst):.3g} (normalised) away from the boundary '
+                          f'of the frame propagated by {float(delta)!r} m to the chopper (allowed {TOL_SAME:g})', case)
 
     # -- _chop: clip geometry -------------------------------------------------------------
     def on_clip(self, ev):
@@ -910,6 +978,16 @@ def make_windows(rng, ctx, pre, fallback, forced_cls=None):
     return opens, closes, classes
 
 
+DIST_MODES = ['forward', 'at_frame', 'equal_prev', 'near_above', 'near_below', 'source']
+
+
+def _value_in(var, unit):
+    """float value of a distance Variable expressed in ``unit`` (harness only)."""
+    if str(var.unit) == unit:
+        return float(var.value)
+    return float(_scalar(var, 'm') / si.factor(sc.Unit(unit)))
+
+
 def run_cascade(cc, mon, ctx, rng, forced):
     """One generated cascade: direct Frame calls, then the same choppers in situ."""
     prog = mon.program
@@ -919,6 +997,12 @@ def run_cascade(cc, mon, ctx, rng, forced):
     dur = float(rng.uniform(1e-4, 5e-3))
     l0 = float(rng.uniform(0.1, 10.0))
     band = float(rng.uniform(0.5, 20.0))
+    long_tof = bool(forced.get('long'))
+    if long_tof:
+        # cold neutrons, short pulse, far choppers: time of flight >> emission time, so that a distance
+        # error delta_d shifts arrival times by ~ (delta_d / d) relative, far outside the 1e-9 band
+        t0, dur = 0.0, float(rng.uniform(1e-4, 3e-3))
+        l0, band = float(rng.uniform(2.0, 8.0)), float(rng.uniform(1.0, 10.0))
     args = (_var(t0, tu, 's'), _var(t0 + dur, tu, 's'), _var(l0 * 1e-10, lu, 'm'), _var((l0 + band) * 1e-10, lu, 'm'))
     prog.append(['from_source_pulse', [repr(a.value) + ' ' + str(a.unit) for a in args]])
     seq0 = cc.FrameSequence.from_source_pulse(*args)
@@ -937,6 +1021,19 @@ def run_cascade(cc, mon, ctx, rng, forced):
     dists_used = [0.0]
     # FrameSequence.chop sorts Variables: one distance unit per chopper list (propagate_to units vary)
     ch_unit = 'm' if rng.random() < 0.5 else D_UNITS[int(rng.integers(0, 3))]
+    if forced.get('unit'):
+        ch_unit = forced['unit']
+    n_near = 0
+
+    def relsep():
+        """Relative separation of 'nearly equal' distances, 1e-12 .. 1e-4 (log-uniform; in the forced
+        cascades a ladder over the shards, so that every decade occurs in every run)."""
+        nonlocal n_near
+        n_near += 1
+        lad = forced.get('ladder')
+        if lad is None:
+            return 10.0 ** float(rng.uniform(-12.0, -4.0))
+        return 10.0 ** (-12.0 + 8.0 * ((lad + 5 * (n_near - 1)) % 16) / 15.0)
 
     def bounds_of(frame):
         for fn in (frame.bounds, frame.subbounds):
@@ -946,7 +1043,7 @@ def run_cascade(cc, mon, ctx, rng, forced):
                 pass
 
     def pick_forward(lo, hi=150.0):
-        lo = max(lo, 1.0)
+        lo = max(lo, 20.0 if long_tof else 1.0)
         if lo >= hi:
             return lo
         x = float(rng.uniform(lo, min(hi, lo + rng.choice([2.0, 20.0, 150.0]))))
@@ -961,9 +1058,10 @@ def run_cascade(cc, mon, ctx, rng, forced):
             x += 0.013
         return x
 
-    def propagate(x):
+    def propagate(x, unit=None):
         nonlocal cur, d_cur
-        dv = _dist_var(rng, x)
+        dv = x if isinstance(x, sc.Variable) else _dist_var(rng, x, unit)
+        x = float(_scalar(dv, 'm'))
         prog.append(['propagate_to', repr(dv.value) + ' ' + str(dv.unit)])
         new = cur.propagate_to(dv)
         if rng.random() < 0.5:
@@ -976,26 +1074,71 @@ def run_cascade(cc, mon, ctx, rng, forced):
         dists_used.append(d_cur)
         bounds_of(cur)
 
+    def near(base, sign):
+        """A distance Variable in the chopper unit next to ``base`` (a Variable): relative separation
+        1e-12..1e-4, or exactly one ulp when everything is float64 metres; next to 0: 1e-12..1e-3 m."""
+        v = _value_in(base, ch_unit)
+        if v == 0.0:
+            if sign < 0:
+                return None
+            return _var(10.0 ** float(rng.uniform(-12.0, -3.0)), ch_unit, 'm')
+        all_m = ch_unit == 'm' and str(base.unit) == 'm' and str(cur.distance.unit) == 'm'
+        want_ulp = forced.get('ulp') if 'ulp' in forced else rng.random() < 0.15
+        if all_m and want_ulp:
+            ctx.hit('one_ulp_apart')
+            flags.add('ulp')
+            return sc.scalar(float(np.nextafter(v, np.inf if sign > 0 else -np.inf)), unit='m')
+        return sc.scalar(v * (1.0 + sign * relsep()), unit=ch_unit)
+
+    modes = forced.get('modes') or []
+    fwin = forced.get('windows') or []
     steps = n_ch
     for k in range(steps):
         # optional propagation before the chopper
         r = rng.random()
-        if r < 0.3:
+        if forced.get('no_prop'):
+            pass
+        elif r < 0.3:
             propagate(pick_forward(d_cur + 0.01))
             flags.add('prop')
         elif r < 0.36 and d_cur > 2:
             propagate(float(rng.uniform(0.0, d_cur - 0.5)))  # backward (acceptance-diagram style)
             flags.add('backward')
-        # chopper distance: at the current frame distance (same Variable, bit for bit), equal to the
-        # previous chopper (same Variable), or further on by >= 0.01 m
-        r = rng.random()
+        # chopper distance: at the current frame distance (same Variable, bit for bit; 0 for the source
+        # frame), equal to an earlier chopper (same Variable), next to the frame or to an earlier chopper
+        # (double-disk choppers: relative separation 1e-12..1e-4 or one ulp), just *behind* the frame
+        # (documented refusal), or further on by >= 0.01 m
+        mode = modes[k] if k < len(modes) else None
+        if mode is None:
+            r = rng.random()
+            mode = ('at_frame' if r < 0.15 else 'near_above' if r < 0.27 else 'near_below' if r < 0.30
+                    else 'equal_prev' if r < 0.34 else 'forward')
+            if forced.get('equal') and k == 1:
+                mode = 'equal_prev'
+        ahead = [c.distance for c in choppers if float(_scalar(c.distance, 'm')) >= d_cur]
+        dv = None
         at_frame = False
-        if r < 0.18 and d_cur >= 1 and str(cur.distance.unit) == ch_unit:
+        if mode == 'at_frame' and d_cur == 0.0 and k >= len(modes) and rng.random() < 0.7:
+            mode = 'forward'  # (a chopper at the source position stays a rare case in random cascades)
+        if mode in ('at_frame', 'source') and d_cur == 0.0:
+            dv = sc.scalar(0.0, unit=ch_unit)
+            ctx.hit('chopper_at_source_distance')
+            flags.add('source')
+        elif mode == 'at_frame' and str(cur.distance.unit) == ch_unit:
             dv = cur.distance.copy()
             at_frame = True
-        elif forced.get('equal') and k == 1 and choppers and float(_scalar(choppers[-1].distance, 'm')) >= d_cur:
-            dv = choppers[-1].distance.copy()
-        else:
+        elif mode == 'equal_prev' and ahead:
+            dv = ahead[int(rng.integers(0, len(ahead)))].copy()
+        elif mode == 'near_above':
+            cands = [*ahead, cur.distance]
+            dv = near(cands[int(rng.integers(0, len(cands)))], +1)
+            ctx.hit('near_distance_choppers')
+            flags.add('near')
+        elif mode == 'near_below' and d_cur > 0:
+            dv = near(cur.distance, -1)
+            flags.add('behind')
+        if dv is None:
+            mode = 'forward'
             dv = _dist_var(rng, pick_forward(d_cur + 0.01), ch_unit)
             while any(0 < abs(float(_scalar(dv, 'm')) - x) < 0.01 for x in dists_used):
                 dv = _dist_var(rng, float(_scalar(dv, 'm')) + 0.013, ch_unit)
@@ -1003,17 +1146,34 @@ def run_cascade(cc, mon, ctx, rng, forced):
         if any(sc.identical(c.distance, dv) for c in choppers):
             ctx.hit('equal_distance_choppers')
             flags.add('equal')
+        if mode == 'forward' and (forced.get('prop_near') or rng.random() < 0.08):
+            # propagate to just in front of the chopper, chop from there
+            xb = sc.scalar(_value_in(dv, 'm') * (1.0 - relsep()), unit='m')
+            if float(xb.value) > d_cur:
+                propagate(xb)
+                ctx.hit('propagate_near_then_chop')
+                flags.add('prop_near')
         # the frame at the chopper position, observed: its vertex times define the windows
         pre = cur.propagate_to(dv)
         if at_frame:
             ctx.hit('propagate_to_chopper_distance')
-        fc = forced.get('window') if k == 0 else None
+        fc = fwin[k] if k < len(fwin) else (forced.get('window') if k == 0 else None)
         o, c, classes = make_windows(rng, ctx, pre, (t0 + d * 2.5e-4 * l0, t0 + dur + d * 2.5e-4 * (l0 + band)), fc)
         all_classes.update(classes)
         ch = cc.Chopper(distance=dv, time_open=sc.array(dims=['slit'], values=o, unit='s'),
                         time_close=sc.array(dims=['slit'], values=c, unit='s'))
         choppers.append(ch)
-        prog.append(['chop', repr(dv.value) + ' ' + str(dv.unit), [repr(x) for x in o], [repr(x) for x in c], classes])
+        prog.append(['chop', mode, repr(dv.value) + ' ' + str(dv.unit), [repr(x) for x in o], [repr(x) for x in c],
+                     classes])
+        if mode == 'near_below':
+            # the chopper is (slightly) in front of the frame: Frame.chop refuses with ValueError; it
+            # still takes part in the FrameSequence.chop runs below, where it is sorted into place
+            try:
+                cur.chop(ch)
+            except ValueError:
+                ctx.hit('chopper_slightly_behind_frame')
+            dists_used.append(d)
+            continue
         start = pre if rng.random() < 0.3 else cur
         cur = start.chop(ch)
         d_cur = float(_scalar(cur.distance, 'm'))
@@ -1061,6 +1221,11 @@ def run_cascade(cc, mon, ctx, rng, forced):
             while any(abs(q - d) < 0.01 for d in ds):
                 q += 0.013
             seq_c[_dist_var(rng, q)]
+        # between and just behind choppers that are nearly at one position
+        close = [(a, b) for a, b in zip(ds, ds[1:], strict=False) if b - a < 0.01]
+        for a, b in close[:3]:
+            seq_c[sc.scalar(a + (b - a) / 2, unit='m')]
+            seq_c[sc.scalar(b * (1.0 + relsep()), unit='m')]
         # exact frame distances: the source itself and a chopper position (values there are undecided for
         # the neutrons that only this chopper blocks, but the lookup must work)
         try:
@@ -1070,6 +1235,21 @@ def run_cascade(cc, mon, ctx, rng, forced):
             ctx.hit('getitem at an exact frame distance')
         except Exception:  # noqa: BLE001  judged by the monitor
             pass
+        if forced.get('seq_prop') or rng.random() < 0.15:
+            # sequence.propagate_to(position of the first chopper, exactly or just in front of it), then
+            # all choppers, then lookups behind the choppers
+            first = min(choppers, key=lambda c: float(_scalar(c.distance, 'm')))
+            if ch_unit == 'm' and rng.random() < 0.5:
+                dp = first.distance.copy()
+            else:
+                dp = sc.scalar(ds[0] * (1.0 - relsep()), unit='m')
+            prog.append(['FrameSequence.propagate_to + chop', repr(dp.value) + ' ' + str(dp.unit)])
+            seq_p = seq0.propagate_to(dp).chop(choppers)
+            ctx.hit('sequence_propagate_then_chop')
+            flags.add('seq_prop')
+            for a in (ds[0], ds[-1]):
+                seq_p[sc.scalar(a * (1.0 + relsep()) if a > 0 else 1e-3, unit='m')]
+            seq_p[sc.scalar(ds[-1] + float(rng.uniform(0.5, 20.0)), unit='m')]
     else:
         seq_c = seq0.propagate_to(_dist_var(rng, pick_forward(1.0), 'm'))
         seq_c[sc.scalar(0.5, unit='m')]
@@ -1077,9 +1257,136 @@ def run_cascade(cc, mon, ctx, rng, forced):
     return sig, (n_ch == 0 and not flags)
 
 
+def _arr(x):
+    return sc.array(dims=['slit'], values=[float(v) for v in x], unit='s')
+
+
+def run_mutable(cc, mon, ctx, rng, forced):
+    """Frame, FrameSequence and Chopper are mutable dataclasses: public fields of live objects are
+    reassigned (or, for the window arrays, changed in place) between calls, one Chopper object is used at
+    several frames, in several sequences and in a second cascade with another pulse.  The monitors read
+    the fields when the call returns: every call is judged against the values current at that call."""
+    prog = mon.program
+    u = rng.uniform
+
+    def source():
+        t0 = 0.0 if rng.random() < 0.5 else float(u(0, 1e-3))
+        dur, l0, band = float(u(1e-4, 5e-3)), float(u(0.5, 8.0)), float(u(1.0, 10.0))
+        tu = T_UNITS[int(rng.integers(0, 3))]
+        args = (_var(t0, tu, 's'), _var(t0 + dur, tu, 's'), _var(l0 * 1e-10, 'angstrom', 'm'),
+                _var((l0 + band) * 1e-10, 'angstrom', 'm'))
+        prog.append(['from_source_pulse', [repr(a.value) + ' ' + str(a.unit) for a in args]])
+        return cc.FrameSequence.from_source_pulse(*args), (t0, t0 + dur + 0.04 * (l0 + band))
+
+    def windows(pre, fallback, cls):
+        o, c, _ = make_windows(rng, ctx, pre, fallback, cls)
+        return _arr(o), _arr(c)
+
+    def bounds_of(frame):
+        for fn in (frame.bounds, frame.subbounds):
+            try:
+                fn()
+            except Exception:  # noqa: BLE001,S110  (judged by the monitors)
+                pass
+
+    def step(what, ch):
+        prog.append([what, repr(ch.distance.value) + ' ' + str(ch.distance.unit),
+                     [repr(float(x)) for x in ch.time_open.values], [repr(float(x)) for x in ch.time_close.values]])
+
+    seq0, fb = source()
+    src = seq0.frames[0]
+    if mon.g(src) is None:
+        return None
+    d1 = float(u(5.0, 40.0))
+    dv1 = sc.scalar(d1, unit='m')
+    o, c = windows(src.propagate_to(dv1), fb, 'cuts_both')
+    ch = cc.Chopper(distance=dv1, time_open=o, time_close=c)
+    step('chop', ch)
+    f1 = src.chop(ch)
+    # the same Chopper object at another frame, nothing changed
+    step('chop (same object, other frame)', ch)
+    src.propagate_to(sc.scalar(d1 * float(u(0.2, 0.9)), unit='m')).chop(ch)
+    ctx.hit('mutable:same_chopper_at_two_frames')
+    # distance reassigned (far behind, or a double-disk distance behind), windows kept
+    d2 = d1 + float(u(0.5, 30.0)) if rng.random() < 0.6 else d1 * (1.0 + 10.0 ** float(u(-9.0, -4.0)))
+    ch.distance = sc.scalar(d2, unit='m')
+    step('chopper.distance = ...; chop', ch)
+    f2 = f1.chop(ch)
+    ctx.hit('mutable:reassigned_chopper_distance')
+    bounds_of(f2)
+    # distance and both window arrays reassigned
+    d3 = d2 + float(u(0.5, 30.0))
+    dv3 = sc.scalar(d3, unit='m')
+    o, c = windows(f2.propagate_to(dv3), fb, 'cuts_low')
+    ch.distance, ch.time_open, ch.time_close = dv3, o, c
+    step('chopper.distance, time_open, time_close = ...; chop', ch)
+    f3 = f2.chop(ch)
+    ctx.hit('mutable:reassigned_chopper_windows')
+    bounds_of(f3)
+    # window values changed in place (same Variable objects): n windows across the frame at d4
+    d4 = d3 + float(u(0.5, 30.0))
+    dv4 = sc.scalar(d4, unit='m')
+    ext = _extents(f3.propagate_to(dv4))
+    ta, tb = (min(e[0] for e in ext), max(e[1] for e in ext)) if ext else fb
+    n = len(ch.time_open.values)
+    w = (tb - ta) if tb > ta else 1e-3
+    ch.distance = dv4
+    ch.time_open.values = np.array([ta + w * (k + u(0.1, 0.4)) / n for k in range(n)])
+    ch.time_close.values = np.array([ta + w * (k + u(0.5, 0.9)) / n for k in range(n)])
+    step('chopper.time_open.values[:] = ...; chop', ch)
+    f4 = f3.chop(ch)
+    ctx.hit('mutable:chopper_windows_changed_in_place')
+    bounds_of(f4)
+    # Frame fields reassigned without changing what the frame means (a fresh distance Variable, the
+    # subframes in another order), then used
+    f4.distance = sc.scalar(float(f4.distance.value), unit='m')
+    f4.subframes = list(reversed(f4.subframes))
+    prog.append(['frame.distance = copy; frame.subframes = reversed; propagate_to'])
+    f5 = f4.propagate_to(sc.scalar(d4 + float(u(0.5, 20.0)), unit='m'))
+    ctx.hit('mutable:reassigned_frame_fields')
+    bounds_of(f4)
+    bounds_of(f5)
+    # FrameSequence: chop with [other, ch], then change ch and chop again with the same object; lookups
+    d5 = d4 + float(u(1.0, 20.0))
+    o, c = windows(src.propagate_to(dv1), fb, 'cuts_both')
+    ch.distance, ch.time_open, ch.time_close = sc.scalar(d1, unit='m'), o, c
+    o, c = windows(src.chop(ch).propagate_to(sc.scalar(d5, unit='m')), fb, 'cuts_high')
+    other = cc.Chopper(distance=sc.scalar(d5, unit='m'), time_open=o, time_close=c)
+    step('FrameSequence.chop([other, chopper])', ch)
+    seq1 = seq0.chop([other, ch])
+    d6 = d5 + float(u(0.5, 20.0))
+    dv6 = sc.scalar(d6, unit='m')
+    o, c = windows(seq1.frames[-1].propagate_to(dv6), fb, 'cuts_both')
+    ch.distance, ch.time_open, ch.time_close = dv6, o, c
+    step('chopper changed; FrameSequence.chop([chopper])', ch)
+    seq2 = seq1.chop([ch])
+    for q in (float(u(d1 + 0.02, d5 - 0.01)), float(u(d5 + 0.02, d6 - 0.01)), d6 + float(u(0.5, 20.0))):
+        seq2[sc.scalar(q, unit='m')]
+    # the frame list of a live sequence reassigned (last frame dropped): later calls start from the
+    # current last frame
+    seq2.frames = seq2.frames[:-1]
+    prog.append(['sequence.frames = sequence.frames[:-1]; chop, propagate_to, [distance]'])
+    seq3 = seq2.chop([ch]).propagate_to(sc.scalar(d6 + float(u(0.5, 20.0)), unit='m'))
+    seq3[sc.scalar(float(u(d5 + 0.02, d6 - 0.01)), unit='m')]
+    seq2[sc.scalar(d6 + 1.0, unit='m')]
+    ctx.hit('mutable:reassigned_sequence_frames')
+    # the same Chopper objects in a second cascade with another pulse
+    seq_b, _ = source()
+    seq_b2 = seq_b
+    if mon.g(seq_b.frames[0]) is not None:
+        step('second pulse: FrameSequence.chop([chopper, other]); Frame.chop(chopper)', ch)
+        seq_b2 = seq_b.chop([ch, other])
+        seq_b2[sc.scalar(d6 + float(u(0.5, 20.0)), unit='m')]
+        ch.distance = sc.scalar(float(u(1.0, 5.0)), unit='m')
+        fb1 = seq_b.frames[0].chop(ch)
+        bounds_of(fb1)
+        ctx.hit('mutable:chopper_reused_in_second_cascade')
+    return ('mutable', len(f4.subframes) > 0, len(seq_b2.frames[-1].subframes) > 0), False
+
+
 # -------------------------------------------------------------------- driver ---
 def plan(tier, seed):
-    n = 19 if tier == 'quick' else 625
+    n = 22 if tier == 'quick' else 625
     return [{'cascades': n} for _ in range(16)]
 
 
@@ -1087,7 +1394,8 @@ def requirements(tier):
     ev = {'from_source_pulse': 100, 'transmission:chop': 300, 'transmission:propagate_to': 300,
           'transmission:getitem': 100, 'shear': 300, '_chop': 1000, 'is_regular': 300,
           'subbounds': 300, 'bounds': 300, 'two_step': 50, 'permutation': 50, 'wavelength_band': 500,
-          'FrameSequence.chop': 100, 'FrameSequence.propagate_to': 100}
+          'FrameSequence.chop': 100, 'FrameSequence.propagate_to': 100,
+          'chop_frame_distance': 300, 'chop_vertices_on_propagated_frame': 300}
     return {'events': ev, 'forced': FORCED,
             'counters': {'neutrons_decided': 200000, 'neutrons_decided_transmitted': 5000,
                          'observed:cut_through_constant_wavelength_edge': 50}}
@@ -1099,6 +1407,21 @@ _FORCED_PLAN = [
     {'n_choppers': 3, 'window': 'misses', 'range': True}, {'n_choppers': 2, 'window': 'contains', 'refusal': True},
     {'n_choppers': 1, 'window': 'cuts_both'}, {'n_choppers': 2, 'window': 'cuts_low'},
     {'n_choppers': 2, 'window': 'cuts_high'},
+    # choppers (nearly) at one position; 'ladder' (added in run) spreads the relative separations
+    # 1e-12..1e-4 over the shards.  Double disk: B just behind A, cold neutrons, both cut the frame
+    {'n_choppers': 2, 'modes': ['forward', 'near_above'], 'windows': ['cuts_both', 'cuts_both'], 'long': True,
+     'ulp': False, 'no_prop': True, 'close': True},
+    # propagate to just in front of a chopper and chop from there; a chopper just in front of the frame
+    # (refused by Frame.chop, sorted into place by FrameSequence.chop); a third disk next to the second
+    {'n_choppers': 4, 'modes': ['forward', 'near_below', 'near_above', 'near_above'],
+     'windows': ['cuts_high', 'cuts_low', 'cuts_both', 'contains'], 'long': True, 'ulp': False, 'prop_near': True,
+     'seq_prop': True, 'close': True},
+    # a chopper at the source position (0 m), one next to it, one an ulp behind an ordinary one (metres)
+    {'n_choppers': 4, 'modes': ['source', 'near_above', 'forward', 'near_above'], 'unit': 'm', 'ulp': True,
+     'windows': ['cuts_both', 'cuts_low', 'cuts_both', 'cuts_high'], 'no_prop': True, 'seq_prop': True,
+     'close': True},
+    # fields of live Chopper / Frame / FrameSequence objects reassigned between calls
+    {'mutable': True},
 ]
 
 
@@ -1125,11 +1448,15 @@ def run(shard, ctx):
         for k in range(shard['cascades']):
             rng = np.random.Generator(np.random.PCG64([shard['seed'], shard['index'], k]))
             mon.reset(rng)
-            forced = _FORCED_PLAN[k] if k < len(_FORCED_PLAN) else {}
+            forced = dict(_FORCED_PLAN[k]) if k < len(_FORCED_PLAN) else {}
+            if k >= len(_FORCED_PLAN) and k % 25 == 24:
+                forced = {'mutable': True}  # (thorough tier: every 25th cascade)
+            if forced.get('close'):
+                forced['ladder'] = int(shard['seed']) + 3 * int(shard['index']) + 7 * k
             before = ctx.n_violations
             out = None
             try:
-                out = run_cascade(cc, mon, ctx, rng, forced)
+                out = (run_mutable if forced.get('mutable') else run_cascade)(cc, mon, ctx, rng, forced)
             except Exception as e:  # noqa: BLE001
                 # exceptions of the code under test were already judged by the monitor of the call
                 # that raised (PY_UNWIND); anything else is a harness problem
